@@ -129,7 +129,7 @@ PROPS = {
                    "an emitted ack_nr within 40 ms + 3 ms; an acknowledgement in the very step for: unacknowledged bytes reaching "
                    "twice the endpoint's own (growing) segment size, out-of-order arrival or gap fill, duplicates, in-sequence FIN, "
                    "an application read that re-opens a zero window; and no emission at all after a second without stimulus, "
-                   "application activity or debt.",
+                   "application activity or debt. A fifth of the timing scripts run with transport back-pressure (the send call refuses datagrams for 1-120 ms); refused datagrams are no emissions, obligations inside a blockage fall due at its end. Deadline wake-up monitor on the hooked snapshots: a poll that ends with the delayed-ACK timer armed for instant D is followed by another poll no later than D.",
         level_note=SIM_NOTE,
         technique="runtime monitoring: scripted-peer arrival timing + obligation-tracking oracle on virtual time",
         budget=dict(quick=200, thorough=2400),
@@ -164,7 +164,7 @@ PROPS = {
                    "silence for a while or for good with retry limits 2..14): which segment a timer expiry retransmits, doubling of "
                    "successive timeout gaps within [200 ms, 60 s], the retry cap and the failure time it predicts, fast retransmit of "
                    "the first hole in the very step of the third duplicate ACK / SACK evidence, never retransmitting acknowledged "
-                   "data, and byte-identical content of every transmission of a sequence number (C01 wire oracle).",
+                   "data, and byte-identical content of every transmission of a sequence number (C01 wire oracle). Deadline wake-up monitor for the retransmission and recovery pipe-expiry timers on the cases that record snapshots.",
         level_note=SIM_NOTE + "; fast retransmit is judged only for the first loss detection of an episode (no retransmission since the last "
                    "ACK that covered everything sent) and only on realistic ACK histories (duplicates only while the peer holds data out of order)",
         technique="runtime monitoring: scripted-peer stimulus + wire-trace oracles on timing and content of every (re)transmission",
@@ -189,7 +189,7 @@ PROPS = {
                    "Checked: connection object dropped within the bound after the application let go / at once on failure; "
                    "dispatcher table entries always belong to a live object and the table is empty after every round; re-opening "
                    "never fails for lack of a slot; no datagram with a dropped connection's identifiers; after cancel every object "
-                   "gone within two steps, held halves / accept / connect report errors, socket silent.",
+                   "gone within two steps, held halves / accept / connect report errors, socket silent. Deaf-sender family: after the application let go, a scripted peer acknowledges the FIN with a data packet, never closes and keeps sending into the zero window for ten virtual minutes; deadline wake-up monitor for the inactivity / final-chance timer.",
         level_note=SIM_NOTE + "; 'bounded time' is judged against one generous bound in virtual time, so a slower but still "
                    "bounded termination is not distinguished from the present one",
         technique="runtime monitoring: life-cycle workload with fault injection + hooked object/table state, API log and wire trace oracles",
@@ -210,7 +210,7 @@ PROPS = {
                    "thorough: all 2^32 pairs, judged on the band). Metamorphic: the same whole-stack case run twice, identical but "
                    "for the values random_u16 hands out (small vs placed shortly before 65535, connection ids included); the "
                    "normalised wire traces and the application histories with their virtual timestamps must be equal. The "
-                   "simulator's determinism (self-checked on every run) is what makes equality the right oracle.",
+                   "simulator's determinism (self-checked on every run) is what makes equality the right oracle. Script-pairs family: receiver, sender and handshake scripts are run under 3-4 placements of the two initial sequence numbers (local below remote, remote below local, either wrapping inside the script) and every emission (time, type, relative numbers, window, SACK bits, length) and application return must be identical.",
         level_note=SIM_NOTE + "; the band +-8192 is what 1 MiB buffers allow down to a 176-byte link MTU",
         technique="runtime monitoring: banded-exhaustive differential check of the sequence arithmetic + metamorphic trace comparison",
         budget=dict(quick=200, thorough=2400),
@@ -235,7 +235,7 @@ PROPS = {
                    "fault / chaos family of C01. Checked: no panic; no 'bug' error from a connection end, an API call or a WARN line; "
                    "bystander connections keep content, demultiplexing and (loss-free network) completion; post-attack connects are "
                    "served; hooked per-connection buffering (user queue, reassembly slots x 16 KiB, TX ring, segment list, inbound "
-                   "channel) within configured sizes. Miri stage (thorough): hostile scripted-peer walks and small duplex cases interpreted by Miri.",
+                   "channel) within configured sizes. Miri stage (thorough): hostile scripted-peer walks and small duplex cases interpreted by Miri. accept_service stage: foreign hosts send bare SYNs carrying the very connection ids the legitimate clients use while those connect; every legitimate connect must succeed, be paired and read back its own token.",
         level_note=SIM_NOTE + "; the attacker never sends a datagram that names a connection other than its target (that would "
                    "not be 'aimed at one connection id'); a bystander damaged by a known same-connection mechanism (C01 known finding) "
                    "is counted, not judged",
@@ -259,7 +259,7 @@ PROPS = {
                    "point), random strings, mutated packets and generated header values (serialize -> parse round trip, parse -> "
                    "serialize -> parse with the documented 64-bit SACK normalisation); every parser call under catch_unwind. Plus "
                    "every datagram real sockets emit in generated whole-stack executions, checked by the independent parser for "
-                   "version, payload rule, extension shape and the connection id owed to the direction. Miri stage (thorough): the differential codec oracle over generated strings, interpreted by Miri.",
+                   "version, payload rule, extension shape and the connection id owed to the direction. Miri stage (thorough): the differential codec oracle over generated strings, interpreted by Miri. Emitted RESETs (the refusal of a SYN at a full backlog) carry the refused SYN's own connection id and acknowledge its sequence number.",
         level_note="trusted base: harness/src/wire.rs (independent codec) and the statement of the normalisations (SACK truncated / "
                    "padded to 64 bits, last SACK extension wins, close reason = extension 3 of length 4)",
         technique="runtime monitoring: differential oracle against an independent codec over a structural grid + emitted-traffic monitor",
@@ -283,7 +283,7 @@ PROPS = {
                    "at that offset, tokens intact, one accepted stream per connect; every payload offered to a reassembler came in "
                    "a datagram naming that connection; live objects never share (remote, receive id), an accepted connection never "
                    "takes the id of a connect in progress, no duplicate table key; live objects and table entries within the limit; "
-                   "on a loss-free network every established connection completes whatever else was attempted or refused.",
+                   "on a loss-free network every established connection completes whatever else was attempted or refused. accept_service stage (see C10): equal connection ids from different addresses must not disturb each other.",
         level_note=SIM_NOTE + "; a connection that was handed datagrams of an earlier incarnation of its own (address, id) key is "
                    "not judged on content (the protocol has no TIME_WAIT and the family removes the protection of random "
                    "sequence numbers on purpose); sharing a send id with a peer-side lingering incarnation is counted, not judged",
@@ -331,7 +331,7 @@ PROPS = {
                    "far larger than the local link allows. Checked: every emitted datagram against the sender's link MTU; every "
                    "first transmission against the size proven at that moment, probes being the newest segment and alone; content "
                    "(C01 oracles) across failed probes; final segment size equals the largest payload that fits, probe count "
-                   "<= ceil(log2(range)) + 2, transfer complete. A third of the duplex cases add ordinary loss (1-3 %) to the size black hole; stream corruption is attributed to the known probe re-cut finding only if everything before the probe had been acknowledged to the sender when it was re-cut.",
+                   "<= ceil(log2(range)) + 2, transfer complete. A third of the duplex cases add ordinary loss (1-3 %) to the size black hole; stream corruption is attributed to the known probe re-cut finding only if everything before the probe had been acknowledged to the sender when it was re-cut. probe_faults family: exact faults around every size probe of a loss-free baseline, including an adaptive straggler (two passes) that delivers the old copy of a probe right after the sender transmitted its sequence number again.",
         level_note=SIM_NOTE + "; 'proven size' is reconstructed from the wire (largest payload acknowledged to or received by the sender)",
         technique="runtime monitoring: size/probe-discipline oracle on every datagram + convergence oracle on black-holing simulated paths",
         budget=dict(quick=240, thorough=3000),
@@ -383,7 +383,7 @@ PROPS = {
                    "all accepted bytes transmitted first, retransmission while unacknowledged, no payload after it; peer FIN only "
                    "in sequence, acknowledged by every later packet and answered; RESET ends the connection at once, silently, with "
                    "an error unless the close handshake was answered. Coverage evidence: (state, packet type) and (state, "
-                   "application action) pairs read from hooked snapshots.",
+                   "application action) pairs read from hooked snapshots. A fifth of the walks run with transport back-pressure; prefixes for a close during timeout recovery and for a close with a size probe outstanding behind ordinary segments; deadline wake-up monitor for the SYN-ACK resend, retransmission and inactivity timers.",
         level_note=SIM_NOTE + "; what the endpoint does with data a peer sends after its own FIN is not judged",
         technique="runtime monitoring: scripted-peer state-machine walks + wire-trace conformance rules",
         budget=dict(quick=200, thorough=2400),
